@@ -362,6 +362,12 @@ class C05Gen(C12Gen):
         r = rng.random()
         if depth >= 1 or r < 0.7:
             v = rng.choice(fin)
+            if len(fin) >= 2 and rng.random() < 0.15:
+                # compound atoms: the conditions reducer introduces an alias _r<k> for the difference
+                w = rng.choice([x for x in fin if x != v])
+                if rng.random() < 0.5:
+                    return ["cmp", var(v), rng.choice(["==", "<", "<=", ">"]), var(w)]
+                return ["cmp", ["add", var(v), var(w)], rng.choice(["==", ">=", "<"]), num(rng.choice([1, 2]))]
             if v in self.flags and rng.random() < 0.7:
                 return ["cmp", var(v), "==", num(rng.choice([0, 1]))]
             return ["cmp", var(v), rng.choice(["==", "<", ">", "<=", ">="]), num(rng.choice([0, 1, 2, 3]))]
@@ -520,6 +526,32 @@ class C05Gen(C12Gen):
         visit(init)
         visit(body)
         return ok[0]
+
+
+def symbolise(prog, rng, sym="p"):
+    """replace some constant probabilities by the symbolic constant `sym`; returns the number of sites"""
+    n = [0]
+
+    def visit(stmts):
+        for s in stmts:
+            if s[0] == "assign":
+                r = s[2]
+                if r[0] == "draw" and r[1] == "Bernoulli" and r[2][0][0] == "num" and rng.random() < 0.6:
+                    r[2][0] = ["var", sym]
+                    n[0] += 1
+                elif r[0] == "choice" and len(r[1]) == 2 and rng.random() < 0.6:
+                    r[1][0][1] = sym
+                    r[1][1][1] = None
+                    n[0] += 1
+            elif s[0] == "if":
+                for _, br in s[1]:
+                    visit(br)
+                if s[2] is not None:
+                    visit(s[2])
+
+    visit(prog["init"])
+    visit(prog["body"])
+    return n[0]
 
 
 def gen_c05_program(rng):
